@@ -245,7 +245,8 @@ def xmi_corruptions(data):
             es[i].attrib[a] = 'notanumber' if kind != 'int*' else es[i].attrib[a] + ' x1'
             yield 'wrong-type', f'attribute {a} of element {i} set to a non-{kind}', ser(r)
         if a in REFS:
-            for bad in ['//@kids.99', '//@nosuch.0', 'no-such-id', '/7'] + ([thing_frag] if thing_frag else []):
+            for bad in ['//@kids.99', '//@nosuch.0', 'no-such-id', '/7', '//@kids.Spezial', '//sub/@kids.0'] \
+                    + ([thing_frag] if thing_frag else []):
                 r, es = fresh()
                 toks = es[i].attrib[a].split()
                 toks[0] = bad
@@ -272,7 +273,8 @@ def xmi_corruptions(data):
                 yield 'xsi-type', f'element {i} <{e.tag}> xsi:type={t}', ser(r)
         else:
             base = e.get('href').split('#')[0]
-            for bad in ('missing.xmi#/', base + '#//@kids.99', base + '#no-such-id', '#//@kids.99', base):
+            for bad in ('missing.xmi#/', base + '#//@kids.99', base + '#no-such-id', '#//@kids.99', base,
+                        base + '#//@kids.Spezial', base + '#//sub/@kids.0'):
                 r, es = fresh()
                 es[i].set('href', bad)
                 yield 'break-href', f'element {i} <{e.tag}> href={bad}', ser(r)
@@ -362,9 +364,10 @@ def json_corruptions(data):
                     if t != v:
                         yield 'xsi-type', f'eClass at {where} = {t}', \
                             ser(edit(path, lambda p, key, d, t=t: p.__setitem__(key, t)))
+
             if k == '$ref':
                 base = v.split('#')[0] if '#' in v else ''
-                bads = ['//@kids.99', '//@nosuch.0', 'no-such-id', 'missing.json#/']
+                bads = ['//@kids.99', '//@nosuch.0', 'no-such-id', 'missing.json#/', '//@kids.Spezial', '//sub/@kids.0']
                 if base:
                     bads += [base + '#//@kids.99', base + '#no-such-id', base]
                 if thing_ref and thing_ref != v:
@@ -375,6 +378,24 @@ def json_corruptions(data):
             if k == 'uuid' and root_uuid is not None and len(path) > 1:
                 yield 'dup-id', f'uuid at {where} = uuid of the root', \
                     ser(edit(path, lambda p, key, d: p.__setitem__(key, root_uuid)))
+        if isinstance(v, dict) and '$ref' not in v and (not path or path[-1] in CONTS or isinstance(path[-1], int)):
+            # an object element: its type written as a syntactically valid URI that names an element which does
+            # not exist (by-name index, positional index out of range, unknown sub-package, feature of a class);
+            # the key is added where the document leaves it out
+            base = v['eClass'].split('#')[0] if isinstance(v.get('eClass'), str) and '#' in v['eClass'] else NS
+
+            def retype(t):
+                d = copy.deepcopy(doc)
+                node = get(d, path)
+                items = [('eClass', t)] + [(kk, vv) for kk, vv in node.items() if kk != 'eClass']
+                node.clear()
+                node.update(items)
+                return d
+            for t in (base + '#//@eClassifiers.Spezial', base + '#//@eClassifiers.99', base + '#//sub/Node',
+                      base + '#//Node/@eStructuralFeatures.nope'):
+                yield 'missing-type-uri', f'eClass of the object at {where} = {t}', ser(retype(t))
+        if path and isinstance(path[-1], str):
+            pass
         elif path and isinstance(path[-1], int) and isinstance(v, (dict, list)):
             yield 'remove-element', f'list element {where} removed', ser(edit(path, lambda p, key, d: p.pop(key)))
             yield 'dup-element', f'list element {where} duplicated', \
@@ -385,6 +406,35 @@ def json_corruptions(data):
     yield 'wrong-type', 'document replaced by a string', b'"doc"'
     yield 'wrong-type', 'document wrapped in a list twice', ser([[doc]])
     yield 'dup-element', 'document duplicated as two roots', ser([doc, doc])
+
+
+def expected_objects(fmt, data):
+    """Number of elements of the document that denote an object of the resource (roots and the elements of the
+    containment features, reference stubs excluded); None when the document is not of the expected form."""
+    try:
+        if fmt == 'json':
+            doc = json.loads(data.decode('utf-8'))
+
+            def count(d):
+                if not isinstance(d, dict) or '$ref' in d:
+                    return 0
+                n = 1
+                for k, v in d.items():
+                    if k in CONTS:
+                        n += sum(count(x) for x in v) if isinstance(v, list) else count(v)
+                return n
+            return sum(count(x) for x in doc) if isinstance(doc, list) else count(doc) if isinstance(doc, dict) else None
+        from lxml import etree
+        root = etree.fromstring(data)
+        roots = list(root) if root.tag == f'{{{XMI_NS}}}XMI' else [root]
+
+        def count(e):
+            if not isinstance(e.tag, str) or e.get('href') is not None or e.get(f'{{{XSI_NS}}}nil') is not None:
+                return 0
+            return 1 + sum(count(c) for c in e if isinstance(c.tag, str) and c.tag in CONTS)
+        return sum(count(e) for e in roots)
+    except Exception:       # noqa: not a document of that form
+        return None
 
 
 # ----------------------------------------------------------------------------
@@ -918,6 +968,14 @@ def _attempt(env, target, priors, timeout, model, follow=False, restore=None):
                           + _first_dump_diff(dumps_before, dumps_after), _diff_qualifier(dumps_before, dumps_after)))
     else:
         r = val1
+        # "raises, or loads a model that contains every element of the document"
+        with open(env.path(target), 'rb') as f:
+            exp = expected_objects(env.fmt, f.read())
+        from pyecore.ecore import EProxy
+        got_n = sum(1 for o in closure(r) if type(o) is not EProxy)
+        if exp is not None and got_n < exp:
+            probs.append(('half-built', f'the document has {exp} object elements, the loaded resource holds {got_n} '
+                          'objects: elements were dropped silently'))
         if rs.resources.get(norm) is not r:
             probs.append(('registry-changed', 'the returned resource is not registered under its normalised URI'))
         if not same_items(before['resources'], after1['resources'][:len(before['resources'])]):
